@@ -253,6 +253,9 @@ structure Policy where
   manifestSkipped : Bool
   /-- the steps of `RestoreBackup` after the manifest was read, in source order -/
   restoreProg : List Instr
+  /-- `RestoreBackup` skips the data step when the manifest inventories no parquet file
+  (`manifest.TotalFiles == 0`) — the inventory does not count Iceberg metadata files -/
+  dataSkipNoParquet : Bool
 deriving DecidableEq, Repr
 
 /-! ## the per-file loop -/
@@ -462,7 +465,8 @@ def restoreBackup (pol : Policy) (o : ROpts) (f : Faults) (bk : Backup) (d0 : Tr
         sqliteRestored := false, configRestored := false }
     else
       let dr := restore pol f bk d0
-      let en := mkFn o.data (o.metadata && m.hasMetadata) (o.config && m.hasConfig)
+      let en := mkFn (o.data && !(pol.dataSkipNoParquet && m.totalFiles == 0))
+        (o.metadata && m.hasMetadata) (o.config && m.hasConfig)
       let bad := mkFn (dr.status != .completed) f.sqlite f.config
       let st := runProg en bad pol.restoreProg {}
       { status := match st.failed with
